@@ -23,13 +23,13 @@ FlagOf(b) == IF b THEN 1 ELSE 0
 Proj(h)   == <<H(HexSlice(h, 0, 32)), H(HexSlice(h, 32, 64)), H(HexSlice(h, 64, 96))>>
 IsRaw(h)  == HexLen(h) = 96
 AffOf(h)  == ToAff(Proj(h))                                  \* abstract point of a logged representative
-DecPt(h)  == LET d == DecodeH(h) IN d[2]                     \* abstract point of a (trusted-by-construction) encoding
+DecPt(h)  == LET d == DecodeH(h) IN IF d[1] = "ok" THEN d[2] ELSE Inf   \* abstract point of an encoding; TOTAL: a garbage operand logged by a defective library can put a non-point into the carried state (round 10: the trace must be rejected, not crash)
 RawOK(h, a) == IsRaw(h) /\ Represents(Proj(h), a)            \* h is a valid representative of the abstract point a
 OperandOK(h) == IsRaw(h) /\ ProjValid(Proj(h))
 
 Classes == {"add_inf_inf", "add_inf_p", "add_p_inf", "add_p_p", "add_p_negp", "add_generic", "add_inf_altrep",
             "z_not_one", "alias_recv", "alias_all", "mixed_p_p", "mixed_p_negp", "mixed_inf", "dbl_inf", "dbl_order2free",
-            "equal_true_diffrep", "equal_neg", "equal_same_y", "equal_limb_twin", "life_reject_cmp", "life_decode_id", "equal_inf_inf", "equal_p_inf", "yodd", "yeven", "inf_parity", "enc_inf", "chain_step",
+            "equal_true_diffrep", "equal_neg", "equal_same_y", "equal_collinear", "equal_limb_twin", "life_reject_cmp", "life_decode_id", "equal_inf_inf", "equal_p_inf", "yodd", "yeven", "inf_parity", "enc_inf", "chain_step",
             "split_extreme", "split_neg1", "split_neg2", "split_round_flip", "split_limb_carry", "split_edge",
             "mul_zero", "mul_inf", "mul_alias", "mul_edge_scalar", "mul_altrep", "glv_bound",
             "tbl_huge", "tbl_odd", "tbl_row", "bm_single_byte", "bm_zero_nibble", "bm_edge", "bm_priv", "bm_priv_after_derive", "bm_recycled",
@@ -99,6 +99,8 @@ Verdict(ev) ==
             \cup (IF Has(ev, "twin") /\ ~PEq(a, b) THEN {"equal_limb_twin"} ELSE {})
             \cup (IF ~IsInf(a) /\ ~PEq(a, b) /\ PEq(a, PNeg(b)) THEN {"equal_neg"} ELSE {})
             \cup (IF ~IsInf(a) /\ ~IsInf(b) /\ ~PEq(a, b) /\ BigEq(a[2], b[2]) THEN {"equal_same_y"} ELSE {})
+            \cup (IF ~IsInf(a) /\ ~IsInf(b) /\ ~PEq(a, b) /\ (BigEq(FAdd(a[1], a[2]), FAdd(b[1], b[2])) \/ BigEq(FSub(a[1], a[2]), FSub(b[1], b[2])))
+                  THEN {"equal_collinear"} ELSE {})                                   \* distinct points on a line x + y = c or x - y = c
             \cup (IF IsInf(a) /\ IsInf(b) THEN {"equal_inf_inf"} ELSE {})
             \cup (IF IsInf(a) # IsInf(b) THEN {"equal_p_inf"} ELSE {}) >>
     [] ev.ev = "pt.EqualEnc" ->      \* Equal on two decoded points, both ways round
